@@ -332,6 +332,14 @@ class PMStream(Stream):
                 if not (l <= last <= u):
                     out.append({"what": f"stale: after the bounds update of event {x['e']} to [{l}, {u}] the last request sent is still {last} W",
                                 "finding": None})
+            # what the actors are told is what is in force: whenever reports go out, the targets they carry add
+            # up to the last request sent (theorem C11_reported_targets_are_in_force)
+            rep0 = x.get("report")
+            if rep0 is not None and (rep0["reg_target"] is not None or rep0["op_target"] is not None):
+                s0 = (rep0["reg_target"] or 0) + (rep0["op_target"] or 0)
+                if last != s0:
+                    out.append({"what": f"in-force: after event {x['e']} the actors are told targets {rep0['reg_target']} + {rep0['op_target']} "
+                                        f"but the last request sent is {last}", "finding": None})
             if r is None:
                 continue
             rep = x.get("report")
